@@ -273,7 +273,7 @@ func DB3ToMCAP(w io.Writer,
 	opts *mcap.WriterOptions,
 	searchdirs []string,
 	callbacks ...func([]byte) error,
-) error {
+) (err error) {
 	topics, err := getTopics(db)
 	if err != nil {
 		return err
@@ -292,7 +292,12 @@ func DB3ToMCAP(w io.Writer,
 	if err != nil {
 		return err
 	}
-	defer writer.Close()
+	defer func() {
+		closeErr := writer.Close()
+		if err == nil {
+			err = closeErr
+		}
+	}()
 	err = writer.WriteHeader(&mcap.Header{
 		Profile: "ros2",
 	})
